@@ -201,7 +201,7 @@ PROPS = {
         level_note=_TOKEN_NOTE + " The component round trips are hypotheses of the theorems (DID: C16_parse_print; command: C15_parse_ok_iff; policy: C14_policy_roundtrip + the not-yet-proved selector print/parse idempotence).",
     ),
     "C10": dict(
-        tie=["Ucan.Props.Tie.ParseTime", "Ucan.Props.Tie.Command", "Ucan.Props.Tie.CommandApi", "Ucan.Props.Tie.Decode", "Ucan.Props.Tie.DecodeBridge", "Ucan.Props.Tie.Inspect", "Ucan.Props.Tie.FindTag", "Ucan.Props.Tie.Limits", "Ucan.Props.Tie.Args"],
+        tie=["Ucan.Props.Tie.ParseTime", "Ucan.Props.Tie.Command", "Ucan.Props.Tie.CommandApi", "Ucan.Props.Tie.Decode", "Ucan.Props.Tie.DecodeBridge", "Ucan.Props.Tie.Inspect", "Ucan.Props.Tie.FindTag", "Ucan.Props.Tie.Limits", "Ucan.Props.Tie.Args", "Ucan.Props.Tie.ParseDid"],
         props_module="Ucan.Props.C10",
         streams=["token"],
         # field cases count in ONE direction: something malformed is accepted (or accepted with another value than the model
